@@ -234,6 +234,21 @@ def wire_family(ctx, rep, corr, comps, family, rng, cap, cap_all=False, only=Non
             ctx.count("wire_pdus_not_described")
 
 
+def finding_corpus():
+    """(tag, composite, PDU hex, what): found by the proof of C03_reencode_nested, which needs `extent <= pdu.length` (hypothesis hext):
+    the decoder's cursor jumps (to OFFSET of a dynamic-length field, to the next ITEM-BYTE-SIZE boundary of a static field) are not checked
+    against the end of the PDU, so a PDU that ends before them decodes, and re-encoding the result yields a LONGER byte string"""
+    u8, val = D.u8, D.value
+    return [
+        ("dynlen-empty-before-offset", D.Composite("RQ", "request", [val("df", D.DynLenField(2, 0, None, u8(), D.Struct([val("x", u8())])))]), "00",
+         "an empty DYNAMIC-LENGTH-FIELD whose OFFSET lies behind the end of the PDU: decode(00) = {df: []} but encode(df=[]) = 00 00 (the gap up to "
+         "OFFSET is emitted by the encoder, not required by the decoder)"),
+        ("static-field-padding-behind-pdu-end", D.Composite("RQ", "request", [val("sf", D.StaticField(1, 2, D.Struct([val("x", u8())])))]), "05",
+         "a STATIC-FIELD item shorter than ITEM-BYTE-SIZE at the end of the PDU: decode(05) = {sf: [{x: 5}]} but encode = 05 00 (the item padding is "
+         "emitted by the encoder, not required by the decoder)"),
+    ]
+
+
 #: enumerated families whose descriptions are well-formed by construction: a loader rejection is a finding, not a skip
 MUST_LOAD = {"wire-enum-dtc-sources", "wire-enum-minmax"}
 
@@ -324,6 +339,14 @@ def run(ctx):
                 continue
             ctx.histo("family", "corpus")
             O.c03_check(ctx, rep, corr, c, L[c.name], bytes.fromhex(pdu), trig, "corpus")
+        # witnesses of recorded (open) findings, each with its fixed signature
+        for tag, c, pdu, what in finding_corpus():
+            L, err = O.safe_load(c)
+            if L is None:
+                ctx.violate("loads", [tag], err.split(":")[0], O.witness(c, None, None), f"corpus description {tag} rejected by the loader: {err}")
+                continue
+            ctx.histo("family", "finding-corpus")
+            O.c03_check(ctx, rep, None, c, L[c.name], bytes.fromhex(pdu), None, "finding-corpus", shrinkable=False, fixed_features=[tag], what=what)
         for tag, desc in compu_corpus():
             compu_case(ctx, desc, "compu-corpus")
         # (b) from the wire: enumerated standard-length DOPs and random simple-tier composites
